@@ -75,7 +75,7 @@ inductive Change
   | balance (a : Addr) (prev : Int)
   | nonce (a : Addr) (prev : Nat)
   | storage (a : Addr) (k : String) (prev : Bytes)
-  | code (a : Addr) (prev : Bytes)
+  | code (a : Addr) (prev : Bytes) (prevHash : Bytes)
 deriving Repr, DecidableEq
 
 def zeroRoot : String := "0x0000000000000000000000000000000000000000000000000000000000000000"
@@ -223,13 +223,20 @@ def getCode (l : L) (a : Addr) : L × Bytes :=
   let (acc', c) := codeOf l1 a acc
   (putAcct l1 a acc', c)
 
+/-- `GetCodeHash`: the zero hash for an empty account (no balance, nonce, code), else the stored hash -/
+def getCodeHash (l : L) (a : Addr) : L × Bytes :=
+  let (l1, acc) := getOrCreate l a
+  let (acc', c) := codeOf l1 a acc
+  let l2 := putAcct l1 a acc'
+  if acc'.balance = 0 ∧ acc'.nonce = 0 ∧ c.isNone then (l2, none) else (l2, acc'.codeHash)
+
 /-- `SetCodeAndHash`; `hash` is Keccak-256 of the code (computed by the caller) -/
 def setCode (K : String → String) (l : L) (a : Addr) (code : String) : L :=
   let (l1, acc0) := getOrCreate l a
   let (acc, prev) := codeOf l1 a acc0
   let d := (acc.dirtyAcc.getD (copyOrNew acc.originAcc))
   let l2 := putAcct l1 a { acc with dirtyAcc := some { d with codeHash := some (K code) }, dirtyCode := some code }
-  { l2 with changes := l2.changes ++ [.code a prev] }
+  { l2 with changes := l2.changes ++ [.code a prev acc.codeHash] }
 
 /-- `Query`: the stored values of the keys with the prefix, overridden by the writes of the
 current block (a key deleted in the block is dropped); sorted.  The account cache is not
@@ -270,11 +277,12 @@ def undo (K : String → String) (l : L) (c : Change) : L :=
   | .storage a k prev =>
     let acc := (KV.get l.accounts a).getD {}
     putAcct l a { acc with dirtyState := KV.set acc.dirtyState k prev }
-  | .code a prev =>
-    -- `setCodeAndHash(prevcode)`: the hash is recomputed from the previous code, also when that is nil
+  | .code a prev prevHash =>
+    -- `restoreCodeAndHash(prevcode, prevhash)` (since the `fix:` commit "a reverted SetCode restores the previous code
+    -- hash"; before, the hash was recomputed from the previous code, also when that was nil: keccak of the empty code)
     let acc := (KV.get l.accounts a).getD {}
     let d := (acc.dirtyAcc.getD (copyOrNew acc.originAcc))
-    putAcct l a { acc with dirtyAcc := some { d with codeHash := some (K (prev.getD "")) }, dirtyCode := prev }
+    putAcct l a { acc with dirtyAcc := some { d with codeHash := prevHash }, dirtyCode := prev }
 
 /-- `RevertToSnapshot`; `none` = panic (unknown revision) -/
 def revertTo (K : String → String) (l : L) (id : Nat) : Option L :=
